@@ -61,3 +61,14 @@ MPINT_AXIOMS = [
     tcval_fn(smt.sempty) == 0,
     z3.ForAll([_n], smt.slen(mpint_fn(_n)) >= 0, patterns=[mpint_fn(_n)]),
 ]
+
+
+@specfuns.register("unhandled_type")
+def unhandled_type(I, args, fr):
+    """message type not dispatched by any of the transport's tables (tables read from the real objects)"""
+    from contracts import transport
+    from pyvc.symexec import Frame
+    sub = Frame(fr.finfo, {"self": args[0], "ptype": args[1]}, "paramiko.transport", "paramiko.transport.Transport")
+    sub.spec = True
+    sub.closure = None
+    return I.E.eval_spec_in(I, transport.UNHANDLED, sub)
